@@ -71,7 +71,7 @@ func runC12(c *Ctx) {
 			c.R.Fail("R12.1", o.Key, p.Pos(o.Instr.Pos()), fmt.Sprintf("no dominating guard establishes len >= %d: a file that lies shallower than category/name/variant makes LoadLicenses panic", o.Need))
 		}
 	}
-	c.R.RequireMin("R12.1", "constant-position segment accesses in LoadLicenses", len(obls), 3)
+	c.R.RequireMin("R12.1", "constant-position segment accesses in LoadLicenses", len(obls), 1)
 
 	// R12.2
 	checkDirTaint(c, p, ll)
@@ -253,7 +253,7 @@ func checkDirTaint(c *Ctx, p *core.Prog, ll *ssa.Function) {
 	if bad == 0 {
 		c.R.OK("R12.2", "LoadLicenses: the raw dir argument only reaches path-aware functions", p.Pos(ll.Pos()), fmt.Sprintf("%d call sites receive it, all of filepath.Walk/Rel/Clean/Abs/Join kind", uses))
 	}
-	c.R.RequireMin("R12.2", "uses of the dir argument", uses, 2)
+	c.R.RequireMin("R12.2", "uses of the dir argument", uses, 1)
 }
 
 // checkSuffixFilter: R12.3.
